@@ -35,7 +35,7 @@ left (`keyedTail` of exactly those elements, each with its own index).  Every re
 exactly once. -/
 theorem C08_classification (cfg : Cfg) (hd : cfg.direct = false) (site : Site) (p : Path)
     (hx : excluded cfg p = false) (c c' : Cls) (xs ys : List Val) (ks ko : List Str)
-    (hks : keysOf cfg p xs = .ok ks) (hko : keysOf cfg p ys = .ok ko) (hn : ks.Nodup) (hno : ko.Nodup) :
+    (hks : keysOf cfg p 0 xs = .ok ks) (hko : keysOf cfg p 0 ys = .ok ko) (hn : ks.Nodup) (hno : ko.Nodup) :
     sub cfg site p (.list c xs) (.list c' ys) =
       seqR (matchedRes cfg p (.list .n0 xs) (.list .n0 ys) (mkEntries 0 ko ys) 0 ks xs)
         (.ok (keyedTail p
